@@ -817,11 +817,39 @@ func rulePlacement(r *Run, rule, m string, allowed []string) {
 		if !attaches && bad == "" {
 			bad = "a permitted case does not attach the new object to its parent"
 		}
-		if m != "AddAction" && !pushes && bad == "" {
-			bad = "a permitted case does not move into the new object (no push on the chain)"
-		}
-		if m == "AddAction" && pushes && bad == "" {
-			bad = "AddAction moves into the action although actions have no children"
+		_ = pushes // where the push stands (in each case, or once after the switch) is judged on the paths below
+	}
+	// attach ⇔ push on every path (AddAction: attach, never push)
+	if fl, paths, ok := r.flowPaths(rule, fn); ok && bound != "" {
+		for i := range paths {
+			p := &paths[i]
+			if p.Exit != ExitReturn {
+				continue
+			}
+			attached, pushed := false, false
+			for _, e := range p.Ev {
+				if e.Kind != EvAssign {
+					continue
+				}
+				for _, l := range e.Lhs {
+					if sel, ok := ast.Unparen(l).(*ast.SelectorExpr); ok {
+						if id, ok := sel.X.(*ast.Ident); ok && id.Name == bound {
+							attached = true
+						}
+					}
+					if isBuilderField(fl.Info, l, "chain") {
+						pushed = true
+					}
+				}
+			}
+			switch {
+			case m != "AddAction" && attached && !pushed && bad == "":
+				bad = "a path attaches the new object to its parent but does not move into it (no push on the chain): the next call would add to the wrong object"
+			case m != "AddAction" && pushed && !attached && bad == "":
+				bad = "a path moves into the new object without having attached it to its parent: it would be silently dropped from the plan"
+			case m == "AddAction" && pushed && bad == "":
+				bad = "AddAction moves into the action although actions have no children"
+			}
 		}
 	}
 	sort.Strings(got)
@@ -1053,9 +1081,23 @@ func walkVisitsOnPath(fl *Flow, p *Path, isSubj func(ast.Expr) bool, typ string,
 				continue
 			}
 			var v *walkVisit
-			if k := CalleeKey(e); visitors[k] && len(e.Call.Args) == 3 {
-				v = &walkVisit{kind: ShortFn(k), chain: e.Call.Args[1], pos: e.Pos, call: e.Call}
-				v.field, v.inLoop = fieldOf(i, e.Call.Args[2])
+			if k := CalleeKey(e); visitors[k] && len(e.Call.Args) >= 2 {
+				// (yield, chain, object) — or (chain, object) when the walkers are methods of a type holding yield
+				var chainArg, target ast.Expr
+				for _, a := range e.Call.Args {
+					tv, ok := info.Types[a]
+					if !ok {
+						continue
+					}
+					switch {
+					case ShortTypeOfSliceElem(tv.Type) == "workflow.Object":
+						chainArg = a
+					case workflowObjTypes[ShortType(tv.Type)]:
+						target = a
+					}
+				}
+				v = &walkVisit{kind: ShortFn(k), chain: chainArg, pos: e.Pos, call: e.Call}
+				v.field, v.inLoop = fieldOf(i, target)
 				if e.Inlined {
 					skip = e.Call
 				}
